@@ -356,3 +356,119 @@ Proof.
   rewrite Hmap, (all_in_order_complete _ _ Hsub). cbn [negb].
   rewrite <- Hmap, map_map. reflexivity.
 Qed.
+
+(* ---------------------------------------------------------------------------------------- *)
+(* the class-level checks *)
+Lemma validate_entry_points_ok tt funcs es infos :
+  validate_entry_points tt funcs es = Ok infos ->
+  Forall2 (fun e i => validate_entry_point tt funcs e = Ok i) es infos.
+Proof.
+  revert infos. induction es as [|e r IH]; intros infos H.
+  - injection H as <-. constructor.
+  - cbn [validate_entry_points] in H.
+    destruct (validate_entry_point tt funcs e) as [i| |] eqn:He; try discriminate.
+    destruct (validate_entry_points tt funcs r) as [is| |]; try discriminate.
+    injection H as <-. constructor; [exact He|apply IH; reflexivity].
+Qed.
+
+Lemma first_some_none {A B} (f : A -> option B) l :
+  first_some f l = None -> Forall (fun x => f x = None) l.
+Proof.
+  induction l as [|x r IH]; intros H; [constructor|].
+  cbn in H. destruct (f x) eqn:Hx; [discriminate|]. constructor; auto.
+Qed.
+
+Record class_accepted (k : class_in) ext l1 ctor : Prop := {
+  ca_version : version_ok (k_major k) (k_minor k) (k_cur_major k) (k_cur_minor k) = true;
+  ca_constructor : constructor_ok (k_constructor k) = true;
+  ca_sel_ctor : StronglySorted Z.lt (map ep_selector (k_constructor k));
+  ca_sel_ext : StronglySorted Z.lt (map ep_selector (k_external k));
+  ca_sel_l1 : StronglySorted Z.lt (map ep_selector (k_l1_handler k));
+  ca_usages : forall i, countZ (map ep_fidx (k_constructor k ++ k_external k ++ k_l1_handler k)) i <= 2;
+  ca_ext : Forall2 (fun e i => validate_entry_point (k_types k) (k_funcs k) e = Ok i) (k_external k) ext;
+  ca_l1 : Forall2 (fun e i => validate_entry_point (k_types k) (k_funcs k) e = Ok i) (k_l1_handler k) l1;
+  ca_ctor : Forall2 (fun e i => validate_entry_point (k_types k) (k_funcs k) e = Ok i) (k_constructor k) ctor;
+}.
+
+Lemma validate_class_ok k ext l1 ctor :
+  validate_class k = Ok (ext, l1, ctor) -> class_accepted k ext l1 ctor.
+Proof.
+  unfold validate_class. intros H.
+  destruct (version_ok _ _ _ _) eqn:Hv; [|discriminate]. cbn [negb] in H.
+  destruct (constructor_ok _) eqn:Hc; [|discriminate]. cbn [negb] in H.
+  destruct (first_some _ _) eqn:Hs; [discriminate|].
+  destruct (check_usages _ _) eqn:Hu; [discriminate|].
+  destruct (validate_entry_points _ _ (k_external k)) as [ext'| |] eqn:He; try discriminate.
+  destruct (validate_entry_points _ _ (k_l1_handler k)) as [l1'| |] eqn:Hl; try discriminate.
+  destruct (validate_entry_points _ _ (k_constructor k)) as [ctor'| |] eqn:Hk; try discriminate.
+  injection H as <- <- <-.
+  apply first_some_none in Hs.
+  apply Forall_cons_iff in Hs as [Hs1 Hs]. apply Forall_cons_iff in Hs as [Hs2 Hs].
+  apply Forall_cons_iff in Hs as [Hs3 _].
+  constructor; try assumption.
+  - apply check_selectors_sorted. exact Hs1.
+  - apply check_selectors_sorted. exact Hs2.
+  - apply check_selectors_sorted. exact Hs3.
+  - apply check_usages_at_most_two. exact Hu.
+  - apply validate_entry_points_ok. exact He.
+  - apply validate_entry_points_ok. exact Hl.
+  - apply validate_entry_points_ok. exact Hk.
+Qed.
+
+Lemma as_casm_entry_points_ok starts es infos r :
+  as_casm_entry_points starts es infos = Some r ->
+  Forall2 (fun ei c => c_selector c = ep_selector (fst ei) /\ c_builtins c = snd (snd ei)
+                       /\ nthZ starts (fst (snd ei)) = Some (c_offset c))
+          (combine es infos) r
+  /\ length es = length infos.
+Proof.
+  revert infos r. induction es as [|e es IH]; intros [|[st bs] infos] r H; try discriminate.
+  - injection H as <-. split; [constructor|reflexivity].
+  - cbn [as_casm_entry_points] in H.
+    destruct (nthZ starts st) as [off|] eqn:Hoff; [|discriminate].
+    destruct (as_casm_entry_points starts es infos) as [r'|] eqn:Hr; [|discriminate].
+    injection H as <-. destruct (IH _ _ Hr) as [IH1 IH2].
+    split; [|cbn; f_equal; exact IH2]. cbn [combine]. constructor; [|exact IH1].
+    cbn. repeat split. exact Hoff.
+Qed.
+
+(* one table of the resulting class against the entry points it was made from *)
+Definition entry_rel (k : class_in) (starts : list Z) (e : ep) (c : cep) : Prop :=
+  c_selector c = ep_selector e
+  /\ exists f bs gs,
+       nthZ (k_funcs k) (ep_fidx e) = Some f
+       /\ nthZ starts (fn_entry f) = Some (c_offset c)
+       /\ entry_shape (k_types k) f bs gs
+       /\ c_builtins c = map builtin_name gs
+       /\ subseq gs ORDER /\ NoDup gs.
+
+Lemma entry_table_ok k starts es infos r :
+  Forall2 (fun e i => validate_entry_point (k_types k) (k_funcs k) e = Ok i) es infos ->
+  as_casm_entry_points starts es infos = Some r ->
+  Forall2 (entry_rel k starts) es r.
+Proof.
+  intros Hv. revert r. induction Hv as [|e [st names] es infos He _ IH]; intros r H.
+  - injection H as <-. constructor.
+  - cbn [as_casm_entry_points] in H.
+    destruct (nthZ starts st) as [off|] eqn:Hoff; [|discriminate].
+    destruct (as_casm_entry_points starts es infos) as [r'|] eqn:Hr; [|discriminate].
+    injection H as <-. constructor; [|apply IH; reflexivity].
+    destruct (validate_entry_point_ok _ _ _ _ _ He) as (f & bs & gs & Hf & -> & Hshape & -> & Hsub & Hnd).
+    split; [reflexivity|]. exists f, bs, gs. cbn. repeat split; assumption.
+Qed.
+
+Lemma class_entry_points_ok k starts ext l1 ctor :
+  class_entry_points k starts = Ok (ext, l1, ctor) ->
+  Forall2 (entry_rel k starts) (k_external k) ext
+  /\ Forall2 (entry_rel k starts) (k_l1_handler k) l1
+  /\ Forall2 (entry_rel k starts) (k_constructor k) ctor.
+Proof.
+  unfold class_entry_points. intros H.
+  destruct (validate_class k) as [[[e l] c]| |] eqn:Hv; try discriminate.
+  apply validate_class_ok in Hv. destruct Hv.
+  destruct (as_casm_entry_points starts (k_external k) e) eqn:H1; [|discriminate].
+  destruct (as_casm_entry_points starts (k_l1_handler k) l) eqn:H2; [|discriminate].
+  destruct (as_casm_entry_points starts (k_constructor k) c) eqn:H3; [|discriminate].
+  injection H as <- <- <-.
+  repeat split; eapply entry_table_ok; eassumption.
+Qed.
